@@ -27,6 +27,14 @@ pub fn eb_line<const N: usize>(mem: &[u8], ri: usize, wi: usize, w: &mut impl st
         Ok((e, d)) => writeln!(w, "EB {} {} {} {} | {} | {}", N, hex(mem), ri, wi, hex(e.as_bytes()), hex(d.as_bytes())).unwrap(),
         Err(_) => writeln!(w, "EB {} {} {} {} | panic | panic", N, hex(mem), ri, wi).unwrap(),
     }
+    // the other things a caller can ask of `Debug`: alternate form, precision, width, fill / alignment, sign, zero padding,
+    // hex flags.  What they render is the implementation's choice; that none of them panics is C04's.
+    let mut panicked: Vec<&str> = vec![];
+    macro_rules! spec {
+        ($($f:literal),*) => { $( if catch_unwind(AssertUnwindSafe(|| format!($f, b))).is_err() { panicked.push($f); } )* };
+    }
+    spec!("{:#?}", "{:.0?}", "{:.1?}", "{:.3?}", "{:.64?}", "{:.1000?}", "{:1?}", "{:10?}", "{:200?}", "{:<5?}", "{:*^30?}", "{:+?}", "{:08?}", "{:x?}", "{:X?}", "{:#.2?}", "{:>12.4?}");
+    writeln!(w, "EF {} {} {} {} | {}", N, hex(mem), ri, wi, if panicked.is_empty() { "-".to_string() } else { panicked.join(";").replace(' ', "") }).unwrap();
     true
 }
 
